@@ -30,10 +30,23 @@ class IndexEnum:
         self.unknown = []           # constructs that could not be interpreted
         self.budget = budget
         self.seqs = {}              # names bound to index sequences (lists of ints / tuples)
+        self.facts = {}             # normalised expression text -> integer (shape facts such as `a_data.ndim`)
+        self.returned = None        # the Return statement that ended the run
 
     # -------------------------------------------------------------- expressions
     def ev(self, e, env=None):
         env = self.env if env is None else env
+        if self.facts and not isinstance(e, (ast.Constant, ast.Name)) and norm(e) in self.facts:
+            return self.facts[norm(e)]
+        if isinstance(e, ast.Call) and isinstance(e.func, ast.Name) and e.func.id == 'tuple' and len(e.args) == 1:
+            return tuple(self.ev_iter(e.args[0], env))
+        if isinstance(e, ast.BinOp) and isinstance(e.op, ast.Add):
+            try:
+                a, b = self.ev(e.left, env), self.ev(e.right, env)
+                if isinstance(a, tuple) and isinstance(b, tuple):
+                    return a + b
+            except NotEvaluable:
+                pass
         if isinstance(e, ast.Constant):
             if isinstance(e.value, (int, str)) and not isinstance(e.value, bool):
                 return e.value
@@ -41,6 +54,8 @@ class IndexEnum:
         if isinstance(e, ast.Name):
             if e.id in env:
                 return env[e.id]
+            if e.id in self.seqs:
+                return tuple(self.seqs[e.id])
             raise NotEvaluable(e.id)
         if isinstance(e, ast.Tuple):
             return tuple(self.ev(x, env) for x in e.elts)
@@ -208,6 +223,8 @@ class IndexEnum:
                 else:
                     self.run(st.orelse, in_generator)
             elif isinstance(st, (ast.Raise, ast.Return)):
+                if isinstance(st, ast.Return):
+                    self.returned = st
                 raise _Abort()
             elif isinstance(st, ast.Expr) and isinstance(st.value, ast.Yield) and in_generator:
                 try:
@@ -279,3 +296,14 @@ def enumerate_function(model, fi, presets):
     except _Abort:
         pass
     return ie.events, ie.unknown
+
+
+def returned_expression(model, fi, presets, facts):
+    """interpret the integer/shape-level control flow of fi and return (Return node reached or None, interpreter)"""
+    ie = IndexEnum(model, fi.module, presets)
+    ie.facts = dict(facts)
+    try:
+        ie.run(fi.node.body)
+    except _Abort:
+        pass
+    return ie.returned, ie
